@@ -6,16 +6,29 @@ package scheduler
 // manual removals, executed on the real scheduler state (events applied directly, mock clock) with
 // real dispatchers over real agent storage. After every operation the harness records, per torrent,
 // whether the scheduler still holds it, Dispatcher.LastReadTime/LastWriteTime and which files exist.
+//
+// Piece serves go through a real conn.Conn (its write loop closes the piece reader — that is what
+// refreshes lastRead); controls are created by download requests and by connecting peers (real
+// incoming handshake path, no local request); the store's eviction, the eviction branch of
+// newTorrentEvent, shutdown and announce events are operations too, so that the predicates (no drop
+// without timeout, no deletion of a cached blob, partial file deleted) are evaluated after them.
 
 import (
+	"errors"
 	"fmt"
 	"strconv"
 	"strings"
 	"testing"
 	"time"
 
+	"github.com/uber/kraken/core"
+	"github.com/uber/kraken/gen/go/proto/p2p"
+	"github.com/uber/kraken/lib/torrent/networkevent"
+	"github.com/uber/kraken/lib/torrent/scheduler/conn"
 	"github.com/uber/kraken/lib/torrent/scheduler/dispatch"
+	"github.com/uber/kraken/lib/torrent/storage/piecereader"
 	"github.com/uber/kraken/utils/verifh"
+	"github.com/willf/bitset"
 )
 
 const c18Machine = "idle"
@@ -26,6 +39,8 @@ type c18Run struct {
 	tr      *verifh.T
 	noticed map[*dispatch.Dispatcher]bool
 	errcs   []chan error
+	nInc    int
+	stopped bool
 	sttl    int64
 	lttl    int64
 	// monitor state (the same predicates as the Lean driver's monitor; evaluated here as well
@@ -70,7 +85,7 @@ func (r *c18Run) check(i int, op []string, cur c18Status) {
 	if dropped && kind != "tick" && kind != "rm" {
 		r.tr.PropFail("dropped-without-timeout", where, verifh.Str(strings.Join(op[1:], " ")))
 	}
-	if old.ca && !cur.ca && kind != "rm" && !(dropped && kind == "tick" && old.c) {
+	if old.ca && !cur.ca && kind != "rm" && kind != "evict" && !(dropped && kind == "tick" && old.c) {
 		r.tr.PropFail("cached-blob-deleted", where, verifh.Str(strings.Join(op[1:], " ")))
 	}
 }
@@ -197,20 +212,104 @@ func (r *c18Run) do(op []string) bool {
 	case op[1] == "serve" && len(op) == 5:
 		i, ok := c18Tor(op[2])
 		pi, ok2 := c18Piece(op[3])
-		if !ok || !ok2 || (op[4] != "ok" && op[4] != "noread" && op[4] != "closefail") {
+		if !ok || !ok2 || (op[4] != "ok" && op[4] != "egress" && op[4] != "closefail") {
 			return false
 		}
-		if ctrl := w.ctrl(i); ctrl != nil && w.tors[i] != nil {
-			w.tors[i].setFailClose(op[4] == "closefail")
-		}
-		res := w.servePiece(i, pi, op[4] != "noread")
-		if res == "sent" && op[4] != "closefail" {
+		res := w.servePiece(i, pi, op[4])
+		if strings.HasPrefix(res, "sent") && op[4] != "closefail" {
 			r.serves[i] = append(r.serves[i], w.now())
 		}
-		if w.tors[i] != nil {
-			w.tors[i].setFailClose(false)
+		if res == "sent-unclosed" {
+			// the payload was handed to the connection and nobody closed its reader: the serve is not counted
+			r.tr.PropFail("served-piece-reader-not-closed", fmt.Sprintf("h%d", i), op[4])
+		}
+		if res == "sent-garbled" {
+			r.tr.PropFail("served-piece-garbled", fmt.Sprintf("h%d", i), op[4])
 		}
 		r.tr.Op(op[1:], res)
+	case op[1] == "lost" && len(op) == 4:
+		// the peer's connection is gone when the dispatcher answers: Send fails, the reader is never closed
+		i, ok := c18Tor(op[2])
+		pi, ok2 := c18Piece(op[3])
+		if !ok || !ok2 {
+			return false
+		}
+		switch res := w.servePiece(i, pi, "lost"); res {
+		case "absent", "rejected":
+			r.tr.Op(op[1:], res)
+		case "nothing":
+			r.tr.Op(op[1:])
+		default:
+			r.tr.Op(op[1:], "unexpected-"+res)
+		}
+	case op[1] == "peer" && len(op) == 4:
+		// a remote peer connects for torrent i (real handshake path → incomingConnEvent → addIncomingConn);
+		// without a control the scheduler opens whatever is on disk: the cached blob, or a download file
+		// (created here, with k pieces, when there is none — as an earlier Download's CreateTorrent leaves it)
+		i, ok := c18Tor(op[2])
+		k, err := strconv.Atoi(op[3])
+		if !ok || err != nil || k < 0 || k > 8 {
+			return false
+		}
+		if w.ctrl(i) == nil && !w.exists(w.cads.Any(), i) {
+			if _, err := w.createTorrent(i, k); err != nil {
+				panic(err)
+			}
+		}
+		r.nInc++
+		id, err := core.HashedPeerID(fmt.Sprintf("verif-c18-peer-%d", r.nInc))
+		if err != nil {
+			panic(err)
+		}
+		bf, _ := bitset.New(uint(w.np)).MarshalBinary()
+		in := w.incoming(id, i, w.blobs[i].mi.InfoHash(), bf)
+		if in.res == "active" || in.res == "connrejected" {
+			if in.res == "active" {
+				in.remote.Close()
+			}
+			if e, ok := w.loop.take(func(e event) bool {
+				ce, ok := e.(connClosedEvent)
+				return ok && ce.c == in.c
+			}, 10*time.Second); ok {
+				e.apply(w.st)
+			} else {
+				panic("harness: no ConnClosed event")
+			}
+		}
+		r.tr.Op(op[1:])
+	case op[1] == "evict" && len(op) == 3:
+		// the store's cleanup deletes the cached blob
+		i, ok := c18Tor(op[2])
+		if !ok {
+			return false
+		}
+		if w.exists(w.cads.Cache(), i) {
+			if err := w.cads.Cache().DeleteFile(w.blobs[i].digest.Hex()); err != nil {
+				panic(err)
+			}
+			r.tr.Op(op[1:], "ok")
+		} else {
+			r.tr.Op(op[1:], "absent")
+		}
+	case op[1] == "aerr" && len(op) == 3:
+		i, ok := c18Tor(op[2])
+		if !ok {
+			return false
+		}
+		announceErrEvent{w.blobs[i].mi.InfoHash(), errors.New("verif: announce failed")}.apply(w.st)
+		r.tr.Op(op[1:])
+	case op[1] == "ares" && len(op) == 3:
+		i, ok := c18Tor(op[2])
+		if !ok {
+			return false
+		}
+		announceResultEvent{w.blobs[i].mi.InfoHash(), nil}.apply(w.st)
+		r.tr.Op(op[1:])
+	case op[1] == "stop" && len(op) == 2:
+		// shutdown; the case ends here (nothing is applied to a stopped scheduler)
+		shutdownEvent{}.apply(w.st)
+		r.stopped = true
+		r.tr.Op(op[1:])
 	case op[1] == "write" && len(op) == 5:
 		i, ok := c18Tor(op[2])
 		pi, ok2 := c18Piece(op[3])
@@ -284,6 +383,9 @@ func c18Exec(tr *verifh.T, c verifh.Case) {
 			tr.PropFail("panic", verifh.Str(p))
 			break
 		}
+		if r.stopped {
+			break
+		}
 	}
 	tr.End()
 }
@@ -313,6 +415,46 @@ func TestVerif_C18(t *testing.T) {
 		{"op", "rm", "h0"}, {"op", "notice", "h0"},
 	}
 	depth := verifh.Scale(3, 4)
+	// (a2) the same over the round-2 letters: peer-created controls, eviction (+ the eviction branch of the next
+	// request), payloads that are not sent / cannot be handed over, other scheduler events, shutdown
+	alpha2 := [][]string{
+		{"op", "adv", "2"}, {"op", "tick"}, {"op", "new", "h0", "1"}, {"op", "new", "h0", "2"},
+		{"op", "peer", "h0", "0"}, {"op", "peer", "h0", "1"}, {"op", "peer", "h0", "2"},
+		{"op", "evict", "h0"}, {"op", "serve", "h0", "p0", "ok"}, {"op", "serve", "h0", "p0", "egress"}, {"op", "lost", "h0", "p0"},
+		{"op", "write", "h0", "p1", "good"}, {"op", "rm", "h0"}, {"op", "notice", "h0"},
+		{"op", "aerr", "h0"}, {"op", "ares", "h0"}, {"op", "stop"},
+	}
+	var rec2 func(prefix [][]string, d int)
+	rec2 = func(prefix [][]string, d int) {
+		if d == 0 {
+			c18Exec(tr, verifh.Case{Cfg: c18Cfg(2, 3, 2), Ops: prefix})
+			tr.Count("exhaustive2_cases", 1)
+			return
+		}
+		for _, o := range alpha2 {
+			if len(prefix) > 0 && prefix[len(prefix)-1][1] == "stop" {
+				return
+			}
+			rec2(append(prefix[:len(prefix):len(prefix)], o), d-1)
+		}
+	}
+	for d := 1; d <= verifh.Scale(3, 4); d++ {
+		rec2(nil, d)
+	}
+	// (a3) eviction timelines: a seeding torrent (requested or peer-created) whose blob is evicted, then every
+	// 2-letter continuation, then a tick after the limit
+	for _, first := range [][]string{{"op", "new", "h0", "2"}, {"op", "peer", "h0", "2"}, {"op", "new", "h0", "1"}} {
+		for _, l1 := range alpha2 {
+			for _, l2 := range alpha2 {
+				if l1[1] == "stop" {
+					continue
+				}
+				ops := [][]string{first, {"op", "write", "h0", "p1", "good"}, {"op", "evict", "h0"}, l1, l2, {"op", "adv", "3"}, {"op", "tick"}}
+				c18Exec(tr, verifh.Case{Cfg: c18Cfg(2, 3, 2), Ops: ops})
+				tr.Count("eviction_cases", 1)
+			}
+		}
+	}
 	var rec func(prefix [][]string, d int)
 	rec = func(prefix [][]string, d int) {
 		if d == 0 {
@@ -411,7 +553,7 @@ func TestVerif_C18(t *testing.T) {
 			h := fmt.Sprintf("h%d", rnd.Intn(c18NTor))
 			p := fmt.Sprintf("p%d", rnd.Intn(np+1)) // np itself is out of range
 			var o []string
-			switch x := rnd.Intn(100); {
+			switch x := rnd.Intn(116); {
 			case x < 22:
 				adv := []int{0, 1, 1, 2, sttl - 1, sttl, lttl - 1, lttl, sttl + 1, lttl + 1}[rnd.Intn(10)]
 				if adv < 0 {
@@ -423,13 +565,26 @@ func TestVerif_C18(t *testing.T) {
 			case x < 52:
 				o = []string{"op", "new", h, strconv.Itoa(rnd.Intn(np + 2))}
 			case x < 72:
-				o = []string{"op", "serve", h, p, rnd.Pick("ok", "ok", "ok", "noread", "closefail")}
+				o = []string{"op", "serve", h, p, rnd.Pick("ok", "ok", "ok", "egress", "closefail")}
 			case x < 88:
 				o = []string{"op", "write", h, p, rnd.Pick("good", "good", "good", "bad")}
 			case x < 95:
 				o = []string{"op", "notice", h}
-			default:
+			case x < 100:
 				o = []string{"op", "rm", h}
+			case x < 106:
+				o = []string{"op", "peer", h, strconv.Itoa(rnd.Intn(np + 2))}
+			case x < 110:
+				o = []string{"op", "evict", h}
+			case x < 113:
+				o = []string{"op", "lost", h, p}
+			case x < 115:
+				o = []string{"op", rnd.Pick("aerr", "ares"), h}
+			default:
+				o = []string{"op", "stop"}
+				if j < steps-3 {
+					o = []string{"op", "tick"}
+				}
 			}
 			ops = append(ops, o)
 			tr.Count("random_op_"+o[1], 1)
@@ -439,5 +594,71 @@ func TestVerif_C18(t *testing.T) {
 		}
 		c18Exec(tr, verifh.Case{Cfg: c18Cfg(sttl, lttl, np), Ops: ops})
 		tr.Count("random_cases", 1)
+	}
+}
+
+// ---------------------------------------------------------------- below the event granularity (machine "idlerace")
+
+// TestVerif_C18Race drives the one schedule that the event-level model cannot express: the last piece of an idle
+// download is being written on the dispatcher's goroutine while the event loop removes the torrent. removeTorrent
+// tests `!Complete()`, tears the dispatcher down, emits the TorrentCancelled network event and then calls
+// DeleteTorrent, which deletes the file from whatever directory it is in. The harness parks the write (a wrapper
+// around the torrent's WritePiece), lets removeTorrent pass its test, and releases the write when the network
+// event is produced: the blob completes, moves to the cache — and is deleted.
+func TestVerif_C18Race(t *testing.T) {
+	tr := verifh.Open("idlerace")
+	defer tr.Close()
+	defer vCloseWorlds()
+	for _, kind := range []string{"tick", "rm", "tick-late"} {
+		w := vWorldFor(2, 3, 2, 1)
+		t0, err := w.createTorrent(0, 1)
+		if err != nil {
+			panic(err)
+		}
+		errc := make(chan error, 8)
+		newTorrentEvent{vNamespace, t0, errc}.apply(w.st)
+		w.clk.advance(5) // no piece for longer than LeecherTTI
+		p := w.peer(0)
+		data := w.blobs[0].piece(1)
+		msg := &conn.Message{Message: &p2p.Message{Type: p2p.Message_PIECE_PAYLOAD,
+			PiecePayload: &p2p.PiecePayloadMessage{Index: 1, Offset: 0, Length: int32(len(data))}},
+			Payload: piecereader.NewBuffer(data)}
+		g := &vGate{entered: make(chan struct{}, 1), release: make(chan struct{}), done: make(chan error, 1)}
+		vSetGate(g)
+		go p.push(msg)
+		select {
+		case <-g.entered:
+		case <-time.After(10 * time.Second):
+			panic("harness: the piece write did not start")
+		}
+		fired, completedInBetween := false, false
+		inner := w.sched.netevents
+		w.sched.netevents = vProducer{inner, func(e *networkevent.Event) {
+			if e.Name == networkevent.TorrentCancelled && !fired && kind != "tick-late" {
+				fired = true
+				close(g.release)
+				<-g.done
+				completedInBetween = w.exists(w.cads.Cache(), 0)
+			}
+		}}
+		if kind == "rm" {
+			rc := make(chan error, 1)
+			removeTorrentEvent{w.blobs[0].digest, rc}.apply(w.st)
+		} else {
+			preemptionTickEvent{}.apply(w.st)
+		}
+		w.sched.netevents = inner
+		if !fired {
+			close(g.release)
+			<-g.done
+		}
+		vSetGate((*vGate)(nil))
+		held := w.ctrl(0) != nil
+		cached := w.exists(w.cads.Cache(), 0)
+		if completedInBetween && !cached && kind != "rm" {
+			// RemoveTorrent is meant to delete the blob in any state; an idle drop is not
+			tr.PropFail("idle-drop-deleted-completed-blob", kind)
+		}
+		tr.One([]string{"race", kind}, "held="+verifh.Bool(held), "completed_in_between="+verifh.Bool(completedInBetween), "cached_after="+verifh.Bool(cached))
 	}
 }
